@@ -38,6 +38,7 @@ import (
 	"github.com/markusmobius/go-domdistiller/internal/markup"
 	"github.com/markusmobius/go-domdistiller/internal/stringutil"
 	"github.com/markusmobius/go-domdistiller/internal/webdoc"
+	"github.com/markusmobius/go-domdistiller/vtrace"
 	"golang.org/x/net/html"
 )
 
@@ -94,18 +95,33 @@ func (ce *ContentExtractor) ExtractContent() (*webdoc.Document, int) {
 	start := time.Now()
 	webDocument := ce.createWebDocumentInfoFromPage(converter.SkipUnlikelies)
 	wordCount := ce.processDocument(webDocument)
+	if vtrace.On {
+		vtrace.Emit("Pass", "n", 1, "skipUnlikelies", true, "wc", wordCount, "elems", webDocument.VerifSummary())
+	}
 
 	if wordCount < documentCharThreshold {
 		webDocument = ce.createWebDocumentInfoFromPage(converter.Default)
 		wordCount = ce.processDocument(webDocument)
+		if vtrace.On {
+			vtrace.Emit("Pass", "n", 2, "skipUnlikelies", false, "wc", wordCount, "elems", webDocument.VerifSummary())
+		}
 	}
 
 	ce.TimingInfo.DocumentConstructionTime = time.Now().Sub(start)
 
 	start = time.Now()
 	docfilter.NewRelevantElements().Process(webDocument)
+	if vtrace.On {
+		vtrace.Emit("DocFilter", "name", "RelevantElements", "elems", webDocument.VerifSummary())
+	}
 	docfilter.NewLeadImageFinder(ce.logger).Process(webDocument)
+	if vtrace.On {
+		vtrace.Emit("DocFilter", "name", "LeadImage", "elems", webDocument.VerifSummary())
+	}
 	docfilter.NewNestedElementRetainer().Process(webDocument)
+	if vtrace.On {
+		vtrace.Emit("DocFilter", "name", "NestedElementRetainer", "elems", webDocument.VerifSummary())
+	}
 	ce.TimingInfo.ArticleProcessingTime = time.Now().Sub(start)
 
 	ce.ImageURLs = webDocument.GetImageURLs()
